@@ -75,6 +75,15 @@ def _container(s, kind):
     return list(s)
 
 
+def _relclose(a, b):
+    if a == b:
+        return True
+    try:
+        return abs(a - b) <= 1e-9 * max(abs(a), abs(b))
+    except (TypeError, OverflowError):
+        return False
+
+
 def run_py(case):
     from dtaidistance import dtw
     res = Res()
@@ -82,6 +91,8 @@ def run_py(case):
     res.nontrivial = _nontrivial(case)
     if case.get('psi_repairs'):
         res.count('repaired_degenerate_psi')
+    if case.get('scale'):
+        res.cls('extreme-magnitude')
     _brute_selfcheck(case, res)
     exp = _oracle(case)
     if exp == ref.inf:
@@ -91,7 +102,7 @@ def run_py(case):
     got, exc = libcall(dtw.distance, s1, s2, use_c=False, **lib_kwargs(case))
     if exc:
         res.fail(exc, 'dtw.distance raised for an admissible input; reference=%r' % exp)
-    elif not ref.close(got, exp):
+    elif not (_relclose(got, exp) if case.get('scale') else ref.close(got, exp)):
         res.fail('value', 'dtw.distance=%r reference=%r' % (got, exp))
     elif case.get('exact') and case.get('inner') in ('squared euclidean', 'euclidean') and got != exp:
         res.count('inexact_but_within_tolerance')
@@ -117,7 +128,7 @@ def run_nonumpy(case):
         raise AssertionError('numpy got imported in the no-numpy child')
     if 'exc' in rep:
         res.fail(rep['exc'], 'dtw.distance (no numpy) raised; reference=%r' % exp)
-    elif not ref.close(rep['ok'], exp):
+    elif not (_relclose(rep['ok'], exp) if case.get('scale') else ref.close(rep['ok'], exp)):
         res.fail('value', 'dtw.distance (no numpy)=%r reference=%r' % (rep['ok'], exp))
     return res
 
@@ -170,6 +181,17 @@ def _strategy(max_len, containers):
         case = draw(gen.dtw_case(max_len=max_len, inners=gen.INNER_ALL))
         case['c1'] = draw(st.sampled_from(containers))
         case['c2'] = draw(st.sampled_from(containers))
+        if case.get('exact') and draw(st.integers(0, 15)) == 0:
+            # magnitudes far outside the range in which squares are representable: the euclidean inner distance only adds
+            # absolute differences, so the optimum is still an ordinary double
+            sc = draw(st.sampled_from([1e-170, 1e160, 1e300]))
+            case['inner'] = 'euclidean'
+            case['scale'] = sc
+            for k in ('s1', 's2'):
+                case[k] = [x * sc for x in case[k]]
+            if case.get('penalty'):
+                case['penalty'] = case['penalty'] * sc
+            case['max_step'] = None      # (a threshold that equals a point distance exactly would not survive the scaling)
         return case
     return s()
 
